@@ -21,6 +21,7 @@
 #include "elem.h"
 #include "state.h"
 #include "parity.h"
+#include "verif.h"
 
 struct snapraid_scan {
 	struct snapraid_state* state; /**< State used. */
@@ -650,9 +651,13 @@ static void scan_file_remove(struct snapraid_scan* scan, struct snapraid_file* f
 		tommy_hashdyn_remove_existing(&disk->inodeset, &file->nodeset);
 	tommy_hashdyn_remove_existing(&disk->pathset, &file->pathset);
 
+	verif_yield(21);
+
 	stamp_lock(disk);
 	tommy_hashdyn_remove_existing(&disk->stampset, &file->stampset);
 	stamp_unlock(disk);
+
+	verif_yield(22);
 
 	/* deallocate the file from the parity */
 	scan_file_deallocate(scan, file);
@@ -1053,6 +1058,8 @@ static void scan_file(struct snapraid_scan* scan, int is_diff, const char* sub, 
 			else
 				other_file = tommy_hashdyn_search(&other_disk->stampset, file_pathstamp_compare, file, hash);
 			stamp_unlock(other_disk);
+
+			verif_yield(20);
 
 			/* if found, and it's a fully hashed file */
 			if (other_file && file_is_full_hashed_and_stable(scan->state, other_disk, other_file)) {
@@ -1622,6 +1629,8 @@ static int state_diffscan(struct snapraid_state* state, int is_diff)
 	struct snapraid_scan total;
 	int no_difference;
 	char esc_buffer[ESC_MAX];
+
+	verif_init();
 
 	tommy_list_init(&scanlist);
 
